@@ -69,7 +69,8 @@ ALT = os.environ.get("SEEDTEST_ALT")  # run in the scratch copy /tmp/alt/{repo,v
 
 def detect(sdir, props):
     if ALT:
-        return detect_in("/tmp/alt/repo", "/tmp/alt/verif", sdir, props, dict(ENV, VERIF_REPO="/tmp/alt/repo"))
+        base = ALT if ALT.startswith("/") else "/tmp/alt"
+        return detect_in(f"{base}/repo", f"{base}/verif", sdir, props, dict(ENV, VERIF_REPO=f"{base}/repo"))
     return detect_in("/repo", "/verif", sdir, props, ENV)
 
 
@@ -77,7 +78,7 @@ def detect_in(REPO, VERIF, sdir, props, env):
     patch = os.path.join(sdir, "patch.diff")
     if ALT:
         sh("git checkout -- .", cwd=REPO)
-        sh("rsync -a /verif/ /tmp/alt/verif/ --exclude build --exclude .git --exclude evidence --exclude harness/Cargo.toml --exclude harness/Cargo.lock")
+        sh(f"rsync -a /verif/ {VERIF}/ --exclude build --exclude .git --exclude evidence --exclude harness/Cargo.toml --exclude harness/Cargo.lock")
     rc, out = sh("git status --short", cwd=REPO)
     if out.strip():
         print(f"{REPO} has uncommitted changes; refusing")
